@@ -291,6 +291,8 @@ structure Impl where
   staleNewNotif : Bool := false
   /-- an interruption left a `tmp-` directory behind -/
   staleTmp : Bool := false
+  /-- class of shared / clashing URIs seen so far in the case -/
+  sticky : String := ""
 deriving Repr, Inhabited
 
 structure St where
@@ -372,10 +374,33 @@ def dupUris (d : Delta) : Bool :=
     | e :: rest => rest.any (fun e' => rsEq e.uri e'.uri) || go rest
   go d
 
+/-- Class of a failure caused by URIs that are equal for `uri::Rsync` but different object keys
+(F-C10-2), or by publishers with nested jails sharing a URI (F-C10-1); `sticky` is what was
+seen earlier in the case. -/
+def globalClass (pubs : List PubObs) (extra : List Uri) (sticky : String) : String :=
+  if schemeCaseClash (allKeys pubs ++ extra) then "scheme-case"
+  else if sharedUris pubs && anyNested pubs then "nested-jails"
+  else sticky
+
+def tagWith (cls : String) (pred : String) : String :=
+  if cls == "" || pred.contains '[' then pred else s!"{pred}[{cls}]"
+
+def cpOf (ows : List String) (h : String) : Option Nat :=
+  match kv? ows "cp" with
+  | none => none
+  | some s => if s == "-" then none else
+    (s.splitOn ",").findSome? fun t => match t.splitOn ":" with
+      | [a, n, _] => if a == h then n.toNat? else none
+      | _ => none
+
 def oracle (st : St) (pre : Impl) (op : List String) (ret : String) (ows : List String)
     (post : Impl) : List String := Id.run do
   if st.outside then return []
-  let mut out : List String := []
+  if ret == "panic" then
+    return [s!"deltas_le_max[{if st.maxNr == 0 then "max_nr=0" else "panic"}]"]
+  let mut c10 : List String := []     -- per-publisher predicates (tagged with the publisher's class)
+  let mut glob : List String := []    -- predicates about the repository as a whole
+  let mut other : List String := []   -- predicates with their own classes
   let prePub := fun (h : String) => pre.pubs.find? (·.handle == h)
   let postPub := fun (h : String) => post.pubs.find? (·.handle == h)
   let others := fun (h : String) =>
@@ -383,13 +408,11 @@ def oracle (st : St) (pre : Impl) (op : List String) (ret : String) (ows : List 
       (match postPub p.handle with
        | some q => objsEquiv p.objs q.objs
        | none => false)
-  let lm := (kv? ows "lm").getD "0"
-  if lm != "0" then out := out ++ ["list_reply"]
-  -- global view: no URI held by two publishers, no two keys of one publisher equal as URIs
-  if sharedUris post.pubs && !(sharedUris pre.pubs) then
-    out := out ++ [s!"isolation[shared-uri:{sharedClass post.pubs []}]"]
-  if selfClash post.pubs && !(selfClash pre.pubs) then
-    out := out ++ ["staging_refines[scheme-case]"]
+  let opk := op.headD ""
+  let mut pubClass := ""
+  if (kv? ows "lm").getD "0" != "0" then c10 := c10 ++ ["list_reply"]
+  -- no URI held by two publishers
+  if sharedUris post.pubs && !(sharedUris pre.pubs) then glob := glob ++ ["isolation"]
   match op with
   | "pub" :: h :: spec :: _ =>
     match parseElems spec with
@@ -397,38 +420,42 @@ def oracle (st : St) (pre : Impl) (op : List String) (ret : String) (ows : List 
     | some d =>
       let accepted := ret == "ok"
       match prePub h with
-      | none =>
-        if accepted then out := out ++ ["publish_iff[unregistered]"]
+      | none => if accepted then c10 := c10 ++ ["publish_iff[unregistered]"]
       | some p =>
+        let postKeys := match postPub h with | some q => q.objs.map (·.1) | none => []
+        if schemeCaseClash (p.objs.map (·.1) ++ postKeys ++ d.map (·.uri)) then pubClass := "scheme-case"
         match parseUri p.base with
         | none => pure ()
         | some jail =>
           let should := d.isEmpty || d.all (elemCond p.objs jail)
-          -- `publish_iff` with URI equality of rpki-rs: a published URI equal (as `uri::Rsync`)
-          -- to one already held is not new
+          -- with the URI equality of rpki-rs a published URI equal to a held one is not new
           let clash := d.any fun e => e.isPublish && p.objs.any fun o => rsEq o.1 e.uri && o.1 != key e.uri
-          if accepted != should then out := out ++ ["publish_iff"]
-          else if accepted && clash then out := out ++ ["publish_iff[scheme-case]"]
+          if accepted != should then c10 := c10 ++ ["publish_iff"]
+          else if accepted && clash then c10 := c10 ++ ["publish_iff[scheme-case]"]
           if !accepted then
             if !(pre.pubs.all fun q => match postPub q.handle with
                   | some q' => objsEquiv q.objs q'.objs
-                  | none => false) then out := out ++ ["publish_atomic"]
+                  | none => false) then c10 := c10 ++ ["publish_atomic"]
           else
             match postPub h with
-            | none => out := out ++ ["staging_refines"]
+            | none => c10 := c10 ++ ["staging_refines"]
             | some p' =>
-              if !(objsEquiv p'.objs (applyDelta p.objs d)) then
-                let cls := if schemeCaseClash (p.objs.map (·.1) ++ d.map (·.uri)) ||
-                    schemeCaseClash (d.map (·.uri)) then "[scheme-case]" else ""
-                out := out ++ [s!"staging_refines{cls}"]
-          if !(others h) then out := out ++ ["isolation"]
+              if !(objsEquiv p'.objs (applyDelta p.objs d)) || selfClash [p'] then
+                c10 := c10 ++ ["staging_refines"]
+          if !(others h) then c10 := c10 ++ ["isolation"]
   | "rmpub" :: h :: _ =>
+    match prePub h with
+    | some p => if schemeCaseClash (p.objs.map (·.1)) then pubClass := "scheme-case"
+    | none => pure ()
     if ret == "ok" then
-      if (postPub h).isSome then out := out ++ ["remove_exact"]
-    if !(others h) then out := out ++ ["remove_exact"]
+      if (postPub h).isSome then c10 := c10 ++ ["remove_exact"]
+      -- the content side must not keep objects of the removed publisher
+      match cpOf ows h with
+      | some n => if n != 0 then c10 := c10 ++ ["remove_exact"]
+      | none => pure ()
+    if !(others h) then c10 := c10 ++ ["remove_exact"]
   | "addpub" :: h :: _ =>
-    if !(others h) then out := out ++ ["isolation"]
-    -- jails of registered publishers overlap exactly when the handles are nested
+    if !(others h) then c10 := c10 ++ ["isolation"]
     for p in post.pubs do
       for q in post.pubs do
         if p.handle != q.handle then
@@ -436,71 +463,66 @@ def oracle (st : St) (pre : Impl) (op : List String) (ret : String) (ows : List 
           | some a, some b =>
             let overlap := eqModule a b && (a.segs.isPrefixOf b.segs || b.segs.isPrefixOf a.segs)
             if overlap != nestedHandles (parseHandle p.handle) (parseHandle q.handle) then
-              out := out ++ ["jails_disjoint_iff"]
+              c10 := c10 ++ ["jails_disjoint_iff"]
           | _, _ => pure ()
   | _ => pure ()
-  let writer := ["update", "reset", "delete", "write", "init"].contains (op.headD "")
-  if writer || op.headD "" == "frestore" || op.headD "" == "fsave" || op.headD "" == "listq" then
-    -- these requests never change what a publisher has
-    if (op.headD "" != "delete") && !(others "") then out := out ++ ["rrdp_update_preserves"]
+  let writer := ["update", "reset", "delete", "write", "init"].contains opk
+  if (writer && opk != "delete") || opk == "frestore" || opk == "fsave" || opk == "listq" then
+    if !(others "") then c10 := c10 ++ ["rrdp_update_preserves"]
   -- serial and session
-  let opk := op.headD ""
-  if opk != "init" && pre.sess != "" then
+  if opk != "init" && pre.sess != "" && ret != "panic" then
     if post.sess != pre.sess then
-      if opk != "reset" then out := out ++ ["session_changes_only_on_reset"]
-      else if post.serial != 1 then out := out ++ ["session_changes_only_on_reset"]
+      if opk != "reset" then other := other ++ ["session_changes_only_on_reset"]
+      else if post.serial != 1 then other := other ++ ["session_changes_only_on_reset"]
     else
       if opk == "update" && ret != "none" && ret != "later" then
-        if post.serial != pre.serial + 1 && !(ret == "panic") then out := out ++ ["serial_plus_one"]
+        if post.serial != pre.serial + 1 then other := other ++ ["serial_plus_one"]
       else if opk == "delete" then
-        if post.serial < pre.serial || post.serial > pre.serial + 2 then out := out ++ ["serial_plus_one"]
-      else if opk == "reset" then out := out ++ ["session_changes_only_on_reset"]
-      else if post.serial != pre.serial then out := out ++ ["serial_plus_one"]
+        if post.serial < pre.serial || post.serial > pre.serial + 2 then other := other ++ ["serial_plus_one"]
+      else if opk == "reset" then other := other ++ ["session_changes_only_on_reset"]
+      else if post.serial != pre.serial then other := other ++ ["serial_plus_one"]
   -- files
+  let mut extra : List Uri := []
   if writer || opk == "frestore" then
     match post.files with
     | none => pure ()
     | some f =>
       match f.nf with
       | none =>
-        out := out ++ [s!"notification_consistent[{if pre.staleNewNotif then "stale-new-notification" else "unparsable"}]"]
+        other := other ++ [s!"notification_consistent[{if pre.staleNewNotif then "stale-new-notification" else "unparsable"}]"]
       | some (ns, nser) =>
         let flagsOk := f.snapFlag == "ok" && f.deltas.all (·.flag == "ok")
-        if !flagsOk then out := out ++ ["notification_consistent"]
-        -- contiguous run ending at the serial
+        if !flagsOk then other := other ++ ["notification_consistent"]
         let serials := f.deltas.map (·.serial)
         let contig := (serials.zipIdx.all fun (s, i) => s + i == nser) && serials.length < nser
-        if !contig then out := out ++ ["deltas_contiguous"]
+        if !contig then other := other ++ ["deltas_contiguous"]
         if serials.length > st.maxNr then
           let cls := if st.maxNr == 0 then "max_nr=0" else if st.minNr + 1 > st.maxNr then "min_nr>=max_nr"
             else if st.young then "young" else "unexplained"
-          out := out ++ [s!"deltas_le_max[{cls}]"]
-        -- inner attributes of the files
+          other := other ++ [s!"deltas_le_max[{cls}]"]
         let innerOk := f.deltas.all fun d => match d.inner with
           | some (s, ser, _) => s == ns && ser == d.serial
           | none => d.flag != "ok"
         let sfOk := match f.sf with
           | some (s, ser, _) => s == ns && ser == nser
           | none => f.snapFlag != "ok"
-        if !(innerOk && sfOk) then out := out ++ ["notification_consistent[inner]"]
+        if !(innerOk && sfOk) then other := other ++ ["notification_consistent[inner]"]
         match f.sf with
         | none => pure ()
         | some (_, _, sobjs) =>
-          -- snapshot = publication state (only when files are at the state's serial)
+          extra := sobjs.map (·.1) ++ (f.deltas.flatMap fun d => match d.inner with
+            | some (_, _, es) => es.map (·.uri) | none => [])
           if ns == post.sess && nser == post.serial then
             let snapS := (kv? ows "snap").getD "-"
             let flat : Objs := if snapS == "-" then [] else
               (snapS.splitOn "|").flatMap fun t => parseObjsList (splitBraces t).2
-            let cls := if hasDupKeys sobjs || hasDupKeys flat then
-                s!"[shared-uri:{sharedClass post.pubs (sobjs.map (·.1))}]" else ""
-            if !(objsEquiv sobjs flat) || hasDupKeys sobjs then
-              out := out ++ [s!"snapshot_is_state{cls}"]
-            if opk == "update" && ret == "done" then
+            if !(objsEquiv sobjs flat) || hasDupKeys sobjs then glob := glob ++ ["snapshot_is_state"]
+            else if opk == "update" && ret == "done" then
+              -- everything the registered publishers list is in the snapshot
               let all : Objs := post.pubs.flatMap (·.objs)
-              if !(objsEquiv sobjs all) && cls == "" then out := out ++ ["snapshot_is_state"]
+              if !(objsSubsetEq all sobjs) then glob := glob ++ ["snapshot_is_state"]
           -- a client that saw any earlier serial of this session catches up
           let mut bad := false
-          let mut ccls := ""
           for ((ss, sser), held) in pre.seen do
             if ss == ns && sser ≤ nser then
               let need := (List.range (nser - sser)).map (· + sser + 1)
@@ -510,39 +532,31 @@ def oracle (st : St) (pre : Impl) (op : List String) (ret : String) (ows : List 
                 match clientFrom held chain with
                 | some r => if !(objsEquiv r sobjs) then bad := true
                 | none => bad := true
-          if bad then
-            if hasDupKeys sobjs || sharedUris post.pubs || sharedUris pre.pubs then
-              ccls := s!"[shared-uri:{sharedClass (post.pubs ++ pre.pubs) (sobjs.map (·.1))}]"
-            else if schemeCaseClash ((f.deltas.flatMap fun d => match d.inner with
-                | some (_, _, es) => es.map (·.uri) | none => []) ++ sobjs.map (·.1)) then
-              ccls := "[scheme-case]"
-            out := out ++ [s!"client_catches_up{ccls}"]
+          if bad then glob := glob ++ ["client_catches_up"]
           -- rsync
           let completed := ret == "ok" || ret == "done"
           if writer && completed && ns == post.sess && nser == post.serial then
-            match parseUri ((kv? ows "base").getD "") with
-            | _ =>
-              let cur := f.rs.find? (·.1 == "current")
-              match cur, st.srv with
-              | some (_, files), some srv =>
-                let exp := (rsyncFiles srv.base sobjs).map fun (rel, c) =>
-                  ("/".intercalate rel, showContent c)
-                let same := exp.all (fun e => files.contains e) && files.all (fun e => exp.contains e)
-                if !same then
-                  let rcls := if hasDupKeys sobjs || (exp.any fun e => exp.any fun e' => e.1 == e'.1 && e.2 != e'.2) then
-                      s!"[shared-uri:{sharedClass post.pubs (sobjs.map (·.1))}]"
-                    else if pre.staleTmp then "[stale-tmp]" else ""
-                  out := out ++ [s!"rsync_equals_snapshot{rcls}"]
-              | none, _ => out := out ++ ["rsync_equals_snapshot[no-current]"]
-              | _, none => pure ()
-    -- an interrupted or failed write must not prevent later writes
+            let cur := f.rs.find? (·.1 == "current")
+            match cur, st.srv with
+            | some (_, files), some srv =>
+              let exp := (rsyncFiles srv.base sobjs).map fun p => ("/".intercalate p.1, showContent p.2)
+              let same := exp.all (fun e => files.contains e) && files.all (fun e => exp.contains e)
+              if !same then
+                let clashPaths := exp.any fun e => exp.any fun e' => e.1 == e'.1 && e.2 != e'.2
+                if pre.staleTmp && !clashPaths && !(hasDupKeys sobjs) then
+                  other := other ++ ["rsync_equals_snapshot[stale-tmp]"]
+                else glob := glob ++ ["rsync_equals_snapshot"]
+            | none, _ => other := other ++ ["rsync_equals_snapshot[no-current]"]
+            | _, none => pure ()
     if writer && ret == "ioerr" then
       let cls := match pre.files with
-        | some f => if (f.rs.any fun e => e.1 == "old" && !e.2.isEmpty) then "[old-left-behind]" else ""
+        | some f => if (f.rs.any fun e => e.1 == "old" && !e.2.isEmpty) && (f.rs.any fun e => e.1 == "current")
+            then "[old-left-behind]" else ""
         | none => ""
-      out := out ++ [s!"rsync_write_after_any_cut{cls}"]
-  let res := out.eraseDups
-  return if st.prop == "" then res else res.filter fun p => propOf p == st.prop
+      other := other ++ [s!"rsync_write_after_any_cut{cls}"]
+  let gcls := globalClass (pre.pubs ++ post.pubs) extra pre.sticky
+  let pcls := if pubClass != "" then pubClass else if gcls == "scheme-case" || gcls == "nested-jails" then pre.sticky else ""
+  return ((c10.map (tagWith pcls)) ++ (glob.map (tagWith gcls)) ++ other).eraseDups
 
 /-! ## the model step -/
 
@@ -777,7 +791,15 @@ def updateImpl (pre : Impl) (op : List String) (ret : String) (ows : List String
   let staleTmp := match files with
     | some f => f.rs.any fun e => e.1.startsWith "tmp-"
     | none => pre.staleTmp
-  { pubs, sess, serial, files, seen, lastWriteBroken := broken, staleNewNotif := staleNN, staleTmp }
+  let extra : List Uri := match files with
+    | some f => (match f.sf with | some (_, _, o) => o.map (·.1) | none => []) ++
+        (f.deltas.flatMap fun d => match d.inner with | some (_, _, es) => es.map (·.uri) | none => [])
+    | none => []
+  let opUris : List Uri := match op with
+    | "pub" :: _ :: spec :: _ => ((parseElems spec).getD []).map (·.uri)
+    | _ => []
+  let sticky := globalClass (pre.pubs ++ pubs) (extra ++ opUris) pre.sticky
+  { pubs, sess, serial, files, seen, lastWriteBroken := broken, staleNewNotif := staleNN, staleTmp, sticky }
 
 def step (st : St) (line : String) : St × String :=
   let (opS, obsS) := splitObs line
@@ -800,8 +822,9 @@ def step (st : St) (line : String) : St × String :=
     | _ => st
   let pre := if op.headD "" == "init" then ({} : Impl) else st.impl
   let post := if op.headD "" == "init" then updateImpl {} op ret ows else post
+  let forProp := fun (l : List String) => if st.prop == "" then l else l.filter fun p => propOf p == st.prop
   if !st.synced then
-    let orc := oracle st pre op ret ows post
+    let orc := forProp (oracle st pre op ret ows post)
     let st' := { st with impl := post }
     if orc.isEmpty then (st', "skip unsynced") else (st', "FAIL oracle " ++ " ".intercalate orc)
   else
@@ -809,9 +832,11 @@ def step (st : St) (line : String) : St × String :=
   | none => ({ st with impl := post }, "bad-op " ++ opS)
   | some m =>
     let st1 : St := { st with srv := m.srv, rfs := m.rfs, sfs := m.sfs, bak := m.bak, dead := m.dead, impl := post }
-    let orc := oracle st1 pre op ret ows post
+    let orcAll := oracle st1 pre op ret ows post
+    let orc := forProp orcAll
     let osfx := if orc.isEmpty then "" else " ORACLE " ++ " ".intercalate orc
-    let st1 := if orc.isEmpty then st1 else { st1 with taint := true }
+    -- the taint does not depend on which property is looked at
+    let st1 := if orcAll.isEmpty then st1 else { st1 with taint := true }
     let mismatch : Option String :=
       if m.ret != ret then some s!"ret: expected [{m.ret}] observed [{ret}]"
       else if m.dead then none
